@@ -22,6 +22,7 @@ inline std::string num(double x) { char b[40]; snprintf(b, sizeof b, "%.17g", x)
 inline manifold::SimplePolygon GenStar(Tape& t, int nMin, int nMax, double rmin, double rmax, std::ostream& d, double jitter = 0.7) {
   int n = t.range(nMin, nMax);
   manifold::SimplePolygon p(n);
+  jitter = std::min(jitter, 0.9 * (n / 2.0 - 1.0));  // every angular gap < 180 degrees: star-shaped, simple, CCW
   d << "star" << n << "[";
   for (int i = 0; i < n; ++i) {
     double r = t.real(rmin, rmax);
